@@ -27,6 +27,9 @@ var texts = []string{
 	"query A { q3 q1 }",
 	"{ nn }",
 	"{ q2\n}",
+	// same operation name, same fragment name, different fragment bodies: two documents
+	"query F { ...P } fragment P on Query { q1 }",
+	"query F { ...P } fragment P on Query { q3 }",
 }
 
 // textRoots: the root fields a text resolves (sorted), written down by hand - not derived from gqlgen.
@@ -41,6 +44,8 @@ var textRoots = map[string][]string{
 	"query A { q3 q1 }": {"q1", "q3"},
 	"{ nn }":            {"nn"},
 	"{ q2\n}":           {"q2"},
+	"query F { ...P } fragment P on Query { q1 }": {"q1"},
+	"query F { ...P } fragment P on Query { q3 }": {"q3"},
 }
 
 type symbol struct {
